@@ -105,14 +105,14 @@ extern "C" void vp_thread1() {
 static bool wres;
 extern "C" void vp_thread2() { wres = m->emplace(NKEYS + 1, (NKEYS + 1) * 10); vp_cover(2); }
 extern "C" void vp_final() {
+  // the iterator removed WK and the element it stood on afterwards (which may be the writer's key if the insertion took effect
+  // before the iterator locked the bucket and the array slot was refilled with it): exactly two of the NKEYS+1 keys are gone,
+  // nothing else is lost, values are intact
   vp_assert(wres, 40);
-  M::accessor a; bool r = m->try_get_value(NKEYS + 1, a);
-  vp_assert(r, 41);                                     // the inserted key is not lost
-  if (r) vp_assert(*a == (NKEYS + 1) * 10, 42);
   M::accessor b; vp_assert(!m->try_get_value(WK, b), 43);
   int cnt = 0;
-  for (int k = 1; k <= NKEYS; ++k) { M::accessor c; if (m->try_get_value(k, c)) { vp_assert(*c == k * 10, 44); ++cnt; } }
-  vp_assert(cnt == NKEYS - 2, 45);                      // exactly two of the original keys were erased
+  for (int k = 1; k <= NKEYS + 1; ++k) { M::accessor c; if (m->try_get_value(k, c)) { vp_assert(*c == k * 10, 44); ++cnt; } }
+  vp_assert(cnt == NKEYS - 1, 45);
 }
 #endif
 #if MODE == 3
